@@ -638,7 +638,10 @@ class Vector():
 		"""
 
 		_alias = _ALIAS_TRACKER
-		_alias.check_writable(self, id(self._underlying))
+		if self._underlying:
+			# (every empty vector holds the interpreter's one empty tuple: that is not storage
+			# shared with another vector - there is no cell in it a write could reach)
+			_alias.check_writable(self, id(self._underlying))
 
 		# === Fast precomputed checks ===
 		key = self._check_duplicate(key)
